@@ -9,7 +9,7 @@ import json, os, shutil, subprocess, sys
 from concurrent.futures import ThreadPoolExecutor
 
 HERE = os.path.dirname(os.path.dirname(os.path.abspath(__file__)))
-MODES = ["reformat", "rename-locals", "flip-compare", "aug-expand", "invert-if", "all", "split-and", "else-wrap", "else-unwrap", "ret-temp", "comp-to-loop", "cond-temp", "ifexp-to-if", "chain-split", "all3", "while-true", "early-continue", "merge-and", "return-none", "all4", "tuple-assign", "demorgan-rev", "all5",
+MODES = ["reformat", "rename-locals", "flip-compare", "aug-expand", "invert-if", "all", "split-and", "else-wrap", "else-unwrap", "ret-temp", "comp-to-loop", "cond-temp", "ifexp-to-if", "chain-split", "all3", "while-true", "early-continue", "merge-and", "return-none", "all4", "tuple-assign", "demorgan-rev", "all5", "if-to-ifexp",
          "swap-minmax", "swap-early-return", "all2"]
 PROPS = [f"C{i:02d}" for i in range(1, 21)]
 
